@@ -182,7 +182,9 @@ def show_out(outs) -> str:
         return outs
     parts = []
     for o in outs:
-        if o[0] == "N":
+        if o[0] == "?":
+            parts.append(f"?{o[1:]}")
+        elif o[0] == "N":
             parts.append("None")
         elif o[0] == "P":
             parts.append(f"tensor:{o[1]}")
@@ -261,6 +263,15 @@ def f32_exact(x: float) -> bool:
     return float(np.float32(x)) == x or x != x
 
 
+def has_mixed_list(case: dict) -> bool:
+    for tok in case["args"]:
+        if tok.startswith("l:"):
+            lit = dec_lit(tok)
+            if len({type(x) for x in lit}) > 1:
+                return True
+    return False
+
+
 def classify(case: dict, expected) -> str | None:
     """Which open finding's predicate (if any) a WellTyped case falls into, given the rule's dtypes."""
     if isinstance(expected, str):
@@ -270,8 +281,6 @@ def classify(case: dict, expected) -> str | None:
             continue
         lit = dec_lit(tok)
         elems = lit if isinstance(lit, list) else [lit]
-        if isinstance(lit, list) and len({type(x) for x in lit}) > 1:
-            return "D24"
         dt = e[1]
         for x in elems:
             if dt in INT_RANGE and not (isinstance(x, float) and (x != x or abs(x) == float("inf"))):
@@ -1412,6 +1421,15 @@ def check_batch(run, drv, cases, stats, rec, cast_log, e2e_every=0):
                 d = same_out(e2e, as_model(bu_res[i]))
                 if d:
                     problems.append((c, "builder", "tie", f"op.{c['op']}(...) end to end feeds {show_out(e2e)}, _cast_inputs alone {show_out(bu_res[i])}: {d}"))
+        if wt and has_mixed_list(c) and "static" in real and not (isinstance(real["static"], str) and real["static"].startswith("REFUSED")) \
+                and classify(c, m["expected"]) is None \
+                and not any((not isinstance(r, str)) and any(o[0] == "?" for o in r) for r in real.values()):
+            # lists mixing Python types lie outside `allRepresentable`; the property is judged directly: same operands in all three
+            stats["mixed_list_three_way"] += 1
+            for fe in ("dynamic", "builder"):
+                d = same_out(real[fe], as_model(real["static"]))
+                if d:
+                    problems.append((c, fe, "property", f"mixed-type list: {fe} feeds {show_out(real[fe])} ; converter {show_out(real['static'])} : {d}", None))
         for fe, r in real.items():
             stats[fe + "_cases"] += 1
             if isinstance(r, str) and r.startswith("REFUSED"):
@@ -1451,7 +1469,10 @@ CORPUS = [
     # (op, opset, args) — witnesses of the known findings and past disagreements
     ("Add", 18, ["t:UINT8:1", "s:i-3"]),            # D21
     ("Add", 18, ["t:DOUBLE:1", "s:" + enc_scalar(0.1)]),  # D23
-    ("Add", 18, ["t:DOUBLE:1", "l:i1," + enc_scalar(2.5)]),  # D24
+    ("Add", 18, ["t:DOUBLE:1", "l:i1," + enc_scalar(2.5)]),  # D24 (fixed by fa769b8: must pass now)
+    ("Reshape", 18, ["t:FLOAT:1", "l:i1," + enc_scalar(2.5)]),
+    ("Add", 18, ["t:INT64:1", "l:b1,i1"]),
+    ("Concat", 18, ["l:" + enc_scalar(2.5) + ",i1", "t:FLOAT16:1", "l:i1,b1"]),
     ("Add", 18, ["t:INT64:1", "s:" + enc_scalar(2.5)]),
     ("Add", 18, ["s:i1", "t:FLOAT:0"]),
     ("Where", 18, ["s:b1", "t:FLOAT:1", "t:DOUBLE:1"]),
@@ -1662,7 +1683,7 @@ def main(run: core.Run) -> None:
                 run.known("D10", detail)
         else:
             cache_viol.append((seq, j, k, detail))
-    for fid in ("D10", "D21", "D23", "D24"):
+    for fid in ("D10", "D21", "D23"):
         stats["known_" + fid] = known[fid]
 
     def slim(c):
@@ -1748,10 +1769,10 @@ def main(run: core.Run) -> None:
                      "literals x 7 sibling dtypes (known and unknown to the builder) + absent + same-literal; ")
         + "the Lean table theorem registry_ok covers the full cross product for every row in both tiers",
     )
-    required = ["static_castlike", "static_plain_const", "dynamic_overflow", "builder_overflow", "builder_refused", "tail_homogeneous",
+    required = ["static_castlike", "static_plain_const", "dynamic_overflow", "builder_overflow", "mixed_list_three_way", "tail_homogeneous",
                 "tail_nonhomogeneous", "tail_toomany", "conflicting_siblings", "arg_tensor_unknown", "arg_none", "arg_list",
                 "has_concrete_typed_formal", "builder_end_to_end", "scope_if_outer", "scope_loop_outer", "scope_if_inner", "scope_top",
-                "history_calls", "session_calls", "session_shared_initializers", "session_err_refused", "session_err_tooMany",
+                "history_calls", "session_calls", "session_shared_initializers", "session_err_overflow", "session_err_tooMany",
                 "scopemodel_uses", "scopemodel_castable", "calls_ok", "calls_ERR_missing", "calls_ERR_tooMany", "calls_static",
                 "cache_hits", "cache_err_overflow", "ort_cast_validated"]
     zero = [k for k in required if not stats[k]]
